@@ -343,6 +343,7 @@ class Unit:
 
         emit_text('// GENERATED by /verif/vlib from %s working tree -- unit %s -- do not edit' % (REPO, self.name))
         emit_text('#![allow(unused_imports, unused_variables, dead_code, unused_mut, unused_macros, non_camel_case_types, unreachable_code, unused_parens, unused_braces, unreachable_patterns)]')
+        emit_text('#![feature(allocator_api)]      // (the std specification of Vec::dedup names the allocator parameter)')
         emit_text('use vstd::prelude::*;')
         emit_text('verus! {')
         emit_text(open(os.path.join(VERIF, 'contracts', 'std_specs.rs')).read())
@@ -635,6 +636,16 @@ class Unit:
             b0 = body.index('{')
             body = body[:b0 + 1] + '\n        let mut oq3_self = self;' + re.sub(r'(?<![\w.])self\b', 'oq3_self', body[b0 + 1:])
             self.desugar_log.append(('D25', '%s: `mut self` parameter -> `self` rebound to a mutable local at the top of the body' % e.qualname))
+        # D25 (generic): a by-value `mut x: T` parameter -> `x: T` rebound by `let mut x = x;` first thing in the body (Verus has no
+        # `mut` by-value parameters in specifications; the rebinding is what the parameter mode means)
+        if not e.trusted:
+            muts = re.findall(r'[(,]\s*mut\s+(\w+)\s*:', sig)
+            muts = [m_ for m_ in muts if m_ != 'self']
+            if muts:
+                sig = re.sub(r'([(,]\s*)mut\s+(\w+\s*:)', r'\1\2', sig)
+                b0 = body.index('{')
+                body = body[:b0 + 1] + ' ' + ' '.join('let mut %s = %s;' % (m_, m_) for m_ in muts) + body[b0 + 1:]
+                self.desugar_log.append(('D25', '%s: by-value `mut` parameter(s) %s rebound by `let mut` at the top of the body' % (e.qualname, ', '.join(muts))))
         sig = _widen_vis(sig)
         if e.ret:
             sig, _ = name_return(sig, e.ret)
